@@ -6,21 +6,33 @@ for the lockstep correspondence (`pool` driver component), program generators, s
 bounded-preemption DFS and replay.
 
 Program (JSON-able):
-  {"max": 3, "min": 0, "qsize": 0, "klass": "L1|L2|G|R|W", "clients": [[op, ...], ...]}
-  op = ["start"] | ["stop"] | ["clear"] | ["join"] | ["join_t"] | ["enq", kind, gate] | ["wait", k] | ["open", gate]
+  {"max": 3, "min": 0, "qsize": 0, "klass": "L1|L2|G|R|S|W|F|N", "clients": [[op, ...], ...],
+   "startfail": [indices of the Thread.start() calls that raise RuntimeError]  (class F),
+   "timeout": null  (class N: ThreadPool(..., timeout=None); absent = 60)}
+  op = ["start"] | ["stop"] | ["clear"] | ["join"] | ["join_t"] | ["join_0", 0 | 0.0] | ["enq", kind, gate, variant?]
+       | ["wait", k] | ["wait_0", k] | ["open", gate] | ["enq_bad", what]
   kind = "ret" | "raise" | "gwait" (blocks on the gate, then returns) | "gopen" (opens the gate, then returns)
-  ["wait", k] waits (with a timeout) for the k-th future obtained by the same client.
+  variant = "<shape>/<value>/<args>" (default "obj/obj/std"):
+     shape  obj (callable instance with __name__) | bare (callable instance WITHOUT __name__) | partial (functools.partial)
+     value  what the task returns — obj (a unique truthy list) | zero (0) | empty ("") | elist (a unique []) | false | none
+            — or raises — obj (ValueError("...")) | noargs (ValueError(), args == ()) | falsy (an exception whose
+            __bool__ is False and __len__ is 0)
+     args   std (one tuple, kw=the tuple) | none (no argument at all) | falsy (0, kw="")
+  ["wait", k] waits (with a timeout) for the k-th future obtained by the same client; ["wait_0", k] is result(0);
+  ["join_0", z] is join(z) with a zero time-out; ["enq_bad", what] enqueues a non-callable (5, "x", None, object()).
 
 Action alphabet sent to the model (one token per real step):  <role>:<label>[:<branch>]
   roles   c<i> (client thread i; the harness' final tear-down stop() is issued as c0, the controlling thread), w<j> (j-th worker started)
   labels  call.start call.stop call.clear call.join call.join_t call.enqueue call.wait:<task id>
-          event.is_set event.set event.clear lock.acquire lock.release
+          event.is_set[:startfail] event.set event.clear lock.acquire lock.release
           queue.qsize queue.put[:timeout] queue.get[:timeout] queue.get_nowait queue.task_done queue.join
           thread.is_alive thread.join[:timeout] cond.acquire cond.wait[:timeout]
           fut.wait[:timeout] fut.set task.begin task.end:ok task.end:exc
   (gate operations belong to the task bodies / the environment and are not sent).
 """
+import functools
 import json
+import time
 
 import impl  # noqa: F401  (sets sys.path, silences logging)
 import jsonrpclib.threadpool as tp
@@ -30,19 +42,57 @@ import sched
 PHASES = {"created": "c", "queued": "q", "held": "h", "running": "r", "finished": "f", "dropped": "d"}
 
 
-class TaskObj(object):
-    """The callable handed to enqueue().  Its body is instrumented, the pool code is not."""
+class FalsyError(Exception):
+    """An exception object that is falsy (`__bool__` False, `__len__` 0) with empty args."""
 
-    def __init__(self, run, tid, kind, gate, client):
+    def __bool__(self):
+        return False
+
+    def __len__(self):
+        return 0
+
+
+VALUE_KINDS = ("obj", "zero", "empty", "elist", "false", "none")
+EXC_KINDS = ("obj", "noargs", "falsy")
+SHAPES = ("obj", "bare", "partial")
+ARG_KINDS = ("std", "none", "falsy")
+
+
+def parse_variant(v):
+    shape, value, args = (v or "obj/obj/std").split("/")
+    return shape, value, args
+
+
+class TaskObj(object):
+    """The callable handed to enqueue() (directly, or wrapped in a functools.partial).  Its body is instrumented, the
+    pool code is not.  Only the `obj` shape has a `__name__`."""
+
+    def __init__(self, run, tid, kind, gate, client, variant=None):
         self.run = run
         self.id = tid
         self.kind = kind
         self.gate = gate
         self.client = client
-        self.__name__ = "task%d" % tid
-        self.value = ["value-of", tid]  # unique object (identity is checked)
-        self.exc = ValueError("exception-of-%d" % tid)
-        self.arg = ("arg-of", tid)
+        self.shape, vk, self.argkind = parse_variant(variant)
+        if self.shape == "obj":
+            self.__name__ = "task%d" % tid
+        # the object returned (identity is checked; the falsy ones are what `x or None` would lose)
+        self.value = {"obj": ["value-of", tid], "zero": 0, "empty": "", "elist": [], "false": False, "none": None}.get(
+            vk, ["value-of", tid])
+        if kind == "raise" and vk == "noargs":
+            self.exc = ValueError()
+        elif kind == "raise" and vk == "falsy":
+            self.exc = FalsyError()
+        else:
+            self.exc = ValueError("exception-of-%d" % tid)
+        if self.argkind == "none":
+            self.args, self.kwargs = (), {}
+        elif self.argkind == "falsy":
+            self.args, self.kwargs = (0,), {"kw": ""}
+        else:
+            self.arg = ("arg-of", tid)
+            self.args, self.kwargs = (self.arg,), {"kw": self.arg}
+        self.callee = functools.partial(self) if self.shape == "partial" else self
         self.begun = 0
         self.ended = False
         self.inbody = False
@@ -53,6 +103,7 @@ class TaskObj(object):
         self.dropped = False
         self.future = None
         self.bad_args = False
+        self.accounted = False  # the worker that ran it has called queue.task_done() for it
 
     def __call__(self, *args, **kwargs):
         r = self.run
@@ -61,7 +112,8 @@ class TaskObj(object):
         self.begun += 1
         self.begin_at = len(s.trace) - 1
         self.inbody = True
-        if not (len(args) == 1 and args[0] is self.arg and list(kwargs) == ["kw"] and kwargs["kw"] is self.arg):
+        if not (len(args) == len(self.args) and all(a is b for a, b in zip(args, self.args))
+                and sorted(kwargs) == sorted(self.kwargs) and all(kwargs[k] is self.kwargs[k] for k in kwargs)):
             self.bad_args = True
         r.on_begin(self)
         if self.kind == "gwait":
@@ -75,6 +127,11 @@ class TaskObj(object):
         if self.kind == "raise":
             raise self.exc
         return self.value
+
+
+def task_of(method):
+    """The TaskObj behind the callable that was queued (a functools.partial wraps it)."""
+    return method.func if isinstance(method, functools.partial) else method
 
 
 class Call(object):
@@ -107,6 +164,12 @@ class Run(object):
         self.klass = program.get("klass", "W")
         self.scripts = program["clients"]
         self.s = sched.Scheduler(chooser, max_steps=max_steps)
+        self.s.fail_starts = frozenset(program.get("startfail") or ())
+        self.timeout_none = "timeout" in program and program["timeout"] is None
+        # W: several controlling threads; F: Thread.start() may fail; N: timeout=None.  None of them is judged for
+        # termination / progress (the theorems assume one controller, no failing start, a finite time-out).
+        self.live_judged = self.klass not in ("W", "F", "N")
+        self.growth_judged = self.klass not in ("W", "F")
         self.monitors = monitors
         self.tasks = []
         self.calls = []
@@ -119,6 +182,7 @@ class Run(object):
         self.stopped_quiet = True  # no start() since construction / since the last return of stop()
         self.floor_on = False
         self.worker_serving = {}  # role -> bool
+        self.worker_counted = {}  # role -> bool: started and has not yet executed its decrement of nb_threads
         self.status = None
         self.pool = None
         self.nclients = len(self.scripts)
@@ -145,7 +209,7 @@ class Run(object):
             if it is self.pool._done_event:
                 out.append("S")
             else:
-                out.append(str(it[0].id))
+                out.append(str(task_of(it[0]).id))
         return out
 
     def phase(self, t):
@@ -215,7 +279,7 @@ class Run(object):
             if role is not None and role[0] == "w":
                 self.worker_serving[role] = False
             return
-        t = item[0]
+        t = task_of(item[0])
         if nowait:
             t.dropped = True
         else:
@@ -278,7 +342,7 @@ class Run(object):
     # ---- monitors: C11 / C09 at call return ---------------------------------------------------
     def check_call_return(self, c):
         p = self.pool
-        if c.api in ("join", "join_t"):
+        if c.api in ("join", "join_t", "join_0"):
             unfinished = [t for t in c.accepted_before if not (self.tasks[t].ended and self.fut_state(self.tasks[t]) != "-")]
             not_done = [t for t in unfinished if not self.tasks[t].dropped]
             dropped = [t for t in unfinished if self.tasks[t].dropped]
@@ -292,7 +356,10 @@ class Run(object):
                 if p._queue.unfinished_tasks == 0:
                     self.violate("C11", "join-false-all-done",
                                  "join(timeout) returned False although no accepted task is unfinished")
-                if not c.enq_during and not unfinished and not c.overlap_stop and c.flag_at_begin is False:
+                # (a task counts as finished here once its worker has also reported it with task_done(): between the end of
+                # the body and that call nothing tells the pool that it is over — join(0) may poll inside that window)
+                unreported = [t for t in c.accepted_before if not self.tasks[t].accounted and not self.tasks[t].dropped]
+                if not c.enq_during and not unfinished and not unreported and not c.overlap_stop and c.flag_at_begin is False:
                     self.violate("C11", "join-false-finished",
                                  "join(timeout) returned False although every task enqueued before it had finished "
                                  "and none was enqueued during the call")
@@ -300,6 +367,12 @@ class Run(object):
             alive = [t.role for t in self.s.threads if t.role[0] == "w" and not t.dead]
             if alive:
                 self.violate("C11", "stop-workers-alive", "stop() returned while worker threads %r are alive" % alive)
+                serving = [r for r in alive if self.worker_serving.get(r)]
+                if serving:
+                    # C09 "no task is ever executed after stop() has returned": a worker that may still read the queue
+                    # will run whatever is enqueued on the stopped pool
+                    self.violate("C09", "worker-serving-after-stop",
+                                 "stop() returned while workers %r can still take a task from the queue" % serving)
             if (self.attr("nb_threads"), self.attr("nb_active_threads"), len(p._threads)) != (0, 0, 0):
                 self.violate("C11", "stop-not-fresh", "after stop(): nb_threads=%d nb_active=%d len(_threads)=%d"
                              % (self.attr("nb_threads"), self.attr("nb_active_threads"), len(p._threads)))
@@ -323,14 +396,20 @@ class Run(object):
     def after_step(self, st):
         nt = self.attr("nb_threads")
         if st.role[0] == "w":
+            if st.label == "queue.task_done":
+                for t in self.tasks:
+                    if t.taken_by == st.role and t.ended and not t.accounted:
+                        t.accounted = True
             if st.label == "event.is_set" and st.res is True:
                 self.worker_serving[st.role] = False
             if nt < self.prev_nt:
                 # whatever the operation: the worker has just executed a decrement of nb_threads
                 self.worker_serving[st.role] = False
+                self.worker_counted[st.role] = False
         for t in self.s.threads:
             if t.role[0] == "w" and t.role not in self.worker_serving:
                 self.worker_serving[t.role] = True
+                self.worker_counted[t.role] = True
             if t.role[0] == "w" and t.dead:
                 self.worker_serving[t.role] = False
         self.prev_nt = nt
@@ -344,11 +423,18 @@ class Run(object):
             return
         inbody = sum(1 for t in self.tasks if t.inbody)
         serving = sum(1 for v in self.worker_serving.values() if v)
+        counted = sum(1 for v in self.worker_counted.values() if v)
+        if nt != counted:
+            # "thread counter must track live workers exactly" (C10 anchor): started workers that have not yet given
+            # their count back — a Thread.start() that failed started nothing and must count nothing
+            self.violate("C10", "counter-drift", "nb_threads=%d but %d started workers still hold their count%s"
+                         % (nt, counted, " (after a failed Thread.start())" if any(x.fail for x in self.s.trace) else ""))
+        self.check_zero_calls()
         if inbody > self.max:
             self.violate("C10", "running-gt-max", "%d tasks inside their body, max_threads=%d" % (inbody, self.max))
         if serving > self.max or nt > self.max:
             self.violate("C10", "serving-gt-max", "%d serving workers (nb_threads=%d), max_threads=%d" % (serving, nt, self.max))
-        if self.floor_on and serving < self.min:
+        if self.floor_on and self.growth_judged and serving < self.min:
             self.violate("C10", "below-min", "%d serving workers after start() returned, min_threads=%d" % (serving, self.min))
         for t in self.tasks:
             fs = self.fut_state(t)
@@ -362,9 +448,53 @@ class Run(object):
                 elif f._EventData__data is not t.value or f._EventData__exception is not None:
                     self.violate("C09", "future-unfaithful", "future of task %d does not hold the returned object" % t.id)
 
+    def check_zero_calls(self):
+        """join(0) / result(0) are polls: the calling thread must never be blocked inside such a call."""
+        for t in self.s.threads:
+            if t.dead or t.role[0] != "c" or t.pending is None:
+                continue
+            c = self.cur_call.get(int(t.role[1:]))
+            if c is None or c.api not in ("join_0", "wait_0") or c.ret == "blocked":
+                continue
+            if t.pending.blocked():
+                c.ret = "blocked"
+                if c.api == "join_0":
+                    self.violate("C11", "join0-blocks",
+                                 "join(%r) — a zero time-out — is blocked in %s instead of answering at once (unfinished=%d)"
+                                 % (c.arg, t.pending.label, self.pool._queue.unfinished_tasks))
+                else:
+                    self.violate("C16", "result0-blocks", "result(0) of task %r is blocked in %s" % (c.arg, t.pending.label))
+
+    def on_quiescent_failed_starts(self):
+        """
+        Class F (some Thread.start() calls fail): a task may legitimately be left without a worker — but only when the
+        attempt to start one for it failed.  Quiescent running pool, nobody inside start()/stop()/clear()/enqueue, a task
+        queued, NO worker able to take it, and no Thread.start() has failed since the youngest queued task was accepted:
+        either a worker existed when it was accepted (and may not have retired: nb_threads > nb_pending is false) or
+        enqueue() had to start one and nothing failed.  Nobody will ever execute it.
+        """
+        if self.flag() or self.stopped_quiet:
+            return
+        if any(c is not None and c.api in ("start", "stop", "clear", "enqueue") for c in self.cur_call.values()):
+            return
+        queued = [int(x) for x in self.queue_items() if x != "S"]
+        serving = sum(1 for v in self.worker_serving.values() if v)
+        if not queued or serving:
+            return
+        last_accept = max(self.tasks[t].accepted_at for t in queued)
+        last_fail = max([st.index for st in self.s.trace if st.fail] or [-1])
+        if last_fail < last_accept:
+            detail = ("quiescent running pool without any worker (nb_threads=%d), tasks %r queued, and no Thread.start() failed "
+                      "after they were accepted (last failure at step %d, task accepted at step %d)"
+                      % (self.attr("nb_threads"), queued, last_fail, last_accept))
+            self.violate("C10", "starved-after-failed-start", detail)
+            self.violate("C09", "never-executed-no-worker", detail)
+
     def on_quiescent(self):
         """No thread is enabled (timeouts may be pending)."""
-        if not self.monitors or self.klass == "W":
+        if self.monitors and self.klass == "F":
+            self.on_quiescent_failed_starts()
+        if not self.monitors or not self.growth_judged:
             return
         if self.flag():
             return
@@ -414,13 +544,33 @@ class Run(object):
                 self.begin_call(i, "join_t")
                 r = pool.join(1.0)
                 self.end_call(i, "T" if r is True else "F" if r is False else "?")
+            elif name == "join_0":
+                # a poll: join(0) / join(0.0) must answer at once (the model's join(t) whose wait times out at once)
+                z = op[1] if len(op) > 1 else 0
+                s.yield_op("call.join_t")
+                self.begin_call(i, "join_0", z)
+                r = pool.join(z)
+                self.end_call(i, "T" if r is True else "F" if r is False else "?")
+            elif name == "enq_bad":
+                # not a pool operation of the model: enqueue() must refuse a non-callable with the documented ValueError
+                what = {"int": 5, "str": "x", "none": None, "obj": object()}[op[1]]
+                if self.monitors:
+                    try:
+                        pool.enqueue(what)
+                    except ValueError:
+                        pass
+                    except Exception as ex:  # noqa: BLE001
+                        self.violate("C09", "enqueue-bad-callable", "enqueue(%r) raised %s instead of the documented ValueError"
+                                     % (what, type(ex).__name__))
+                    else:
+                        self.violate("C09", "enqueue-bad-callable", "enqueue(%r) accepted a non-callable" % (what,))
             elif name == "enq":
                 s.yield_op("call.enqueue")
-                t = TaskObj(self, len(self.tasks), op[1], op[2] if len(op) > 2 else None, i)
+                t = TaskObj(self, len(self.tasks), op[1], op[2] if len(op) > 2 else None, i, op[3] if len(op) > 3 else None)
                 self.tasks.append(t)
                 self.begin_call(i, "enqueue", t.id)
                 try:
-                    f = pool.enqueue(t, t.arg, kw=t.arg)
+                    f = pool.enqueue(t.callee, *t.args, **t.kwargs)
                 except sched.Full:
                     futs.append(None)
                     self.end_call(i, "Full")
@@ -429,15 +579,15 @@ class Run(object):
                         self.violate("C09", "future-identity", "enqueue returned a future that is not the queued one")
                     futs.append(t)
                     self.end_call(i, "fut")
-            elif name == "wait":
+            elif name in ("wait", "wait_0"):
                 k = op[1]
                 if k >= len(futs) or futs[k] is None:
                     continue
                 t = futs[k]
                 s.yield_op("call.wait", arg=t.id)
-                self.begin_call(i, "wait", t.id)
+                self.begin_call(i, name, t.id)
                 try:
-                    v = t.future.result(1.0)
+                    v = t.future.result(1.0 if name == "wait" else 0)
                 except OSError as ex:
                     if ex is t.exc:
                         ret = "exc"
@@ -465,12 +615,12 @@ class Run(object):
 
     def on_put(self, item):
         if item is not self.pool._done_event:
-            t = item[0]
+            t = task_of(item[0])
             t.future = item[3]
             t.accepted_at = len(self.s.trace) - 1
             self.accept_order.append(t.id)
             for c in self.cur_call.values():
-                if c is not None and c.api in ("join", "join_t"):
+                if c is not None and c.api in ("join", "join_t", "join_0"):
                     c.enq_during = True
 
     # ---- the run ------------------------------------------------------------------------------
@@ -479,7 +629,7 @@ class Run(object):
         run = self
         with s.patched(tp):
             try:
-                self.pool = tp.ThreadPool(self.max, self.min, self.qsize, timeout=60)
+                self.pool = tp.ThreadPool(self.max, self.min, self.qsize, timeout=None if self.timeout_none else 60)
                 pool = self.pool
                 pool._done_event.kind = "event"
                 q = pool._queue
@@ -530,7 +680,7 @@ class Run(object):
             where = {t.role: t.pending.label for t in self.s.threads if not t.dead}
             in_stop = self.stop_in_progress > 0
             in_clear = any(c is not None and c.api == "clear" for c in self.cur_call.values())
-            if self.klass == "W" or (in_clear and not in_stop):
+            if not self.live_judged or (in_clear and not in_stop):
                 return
             prop = "C11" if in_stop else "C10"
             self.violate(prop, "stop-" + st if in_stop else st,
@@ -583,13 +733,16 @@ class Run(object):
                 tok += ":%d" % st.arg
             if st.timeout:
                 tok += ":timeout"
+            if st.fail:
+                tok += ":startfail"
             toks.append(tok)
             projs.append(st.proj)
         return toks, projs
 
     def model_line(self):
         toks, projs = self.model_tokens()
-        head = "pool %d %d %d %d %d" % (self.max, self.min, self.qsize, self.nclients, 0 if self.klass == "W" else 1)
+        flags = (0 if self.klass == "W" else 1) + (2 if self.s.fail_starts else 0) + (4 if self.timeout_none else 0)
+        head = "pool %d %d %d %d %d" % (self.max, self.min, self.qsize, self.nclients, flags)
         return head + (" " + " ".join(toks) if toks else ""), projs
 
     def schedule(self):
@@ -606,13 +759,44 @@ def gen_config(rng, bounded_ok=True):
     return mx, mn, qs
 
 
+def gen_variant(rng, kind):
+    """
+    How the task is presented and what it returns / raises / receives: in half of the cases something other than the
+    plain named callable returning a truthy object — a callable WITHOUT __name__ (functools.partial, bare instance),
+    a falsy-but-not-None result (0, "", [], False) or None, an exception with empty args or a falsy exception object,
+    no arguments at all or falsy ones.
+    """
+    if rng.random() < 0.5:
+        return None
+    shape = rng.choice(SHAPES)
+    value = rng.choice(EXC_KINDS if kind == "raise" else VALUE_KINDS)
+    args = rng.choice(ARG_KINDS)
+    return "%s/%s/%s" % (shape, value, args)
+
+
+def _with_variant(rng, op):
+    v = gen_variant(rng, op[1])
+    return op + [v] if v is not None else op
+
+
 def _enq(rng, gates_client, p_gate=0.25):
     r = rng.random()
     if gates_client and r < p_gate:
-        return ["enq", "gwait", rng.choice(gates_client)]
+        return _with_variant(rng, ["enq", "gwait", rng.choice(gates_client)])
     if r < p_gate + 0.2:
-        return ["enq", "raise", None]
-    return ["enq", "ret", None]
+        return _with_variant(rng, ["enq", "raise", None])
+    return _with_variant(rng, ["enq", "ret", None])
+
+
+def _timed_join(rng):
+    """join(1.0), or in one case out of four the poll join(0) / join(0.0)."""
+    if rng.random() < 0.25:
+        return ["join_0", rng.choice([0, 0.0])]
+    return ["join_t"]
+
+
+def _wait(rng, k):
+    return ["wait_0", k] if rng.random() < 0.2 else ["wait", k]
 
 
 def gen_program(rng, klass=None):
@@ -624,7 +808,14 @@ def gen_program(rng, klass=None):
         every client enqueues first and blocks afterwards, unbounded queue: never a deadlock by construction.
     W : anything on any thread (concurrent start/stop/clear): lockstep correspondence and the pure safety monitors only.
     R : restart after a busy stop (gen_restart): stop() while a gate-blocked task runs, start again, enqueue, wait.
+    S : stop, then enqueue WITHOUT restarting (gen_stop_enqueue): nothing may run once stop() has returned.
+    F : class L1 with some Thread.start() calls failing (RuntimeError): correspondence + safety monitors + exact
+        thread accounting; not judged for growth / progress (the theorems assume that thread creation never fails).
+    N : class L1 on a pool built with timeout=None (unvalidated by the constructor): correspondence + safety monitors,
+        not judged for termination (stop() / enqueue may block for ever in an untimed queue.put).
     (GR: gen_gate_race, a shape of class G.)
+    In L1 the other clients may also call the untimed join() (then c0 ends with the pool running, so that every join
+    returns); every class mixes join(0)/result(0) polls, nameless callables, falsy results and enqueue(non-callable).
     """
     if klass is None:
         klass = rng.choice(["L1", "L1", "L2", "G", "G", "W"])
@@ -632,6 +823,20 @@ def gen_program(rng, klass=None):
         return gen_gate_race(rng)
     if klass == "R":
         return gen_restart(rng)
+    if klass == "S":
+        return gen_stop_enqueue(rng)
+    if klass == "F":
+        p = gen_program(rng, "L1")
+        p["klass"] = "F"
+        p["startfail"] = sorted(set(rng.randrange(0, 5) for _ in range(rng.choice([1, 1, 2]))))
+        return p
+    if klass == "N":
+        p = gen_program(rng, "L1")
+        p["klass"] = "N"
+        p["timeout"] = None
+        if rng.random() < 0.5:
+            p["qsize"] = 1
+        return p
     mx, mn, qs = gen_config(rng, bounded_ok=(klass != "G"))
     nclients = rng.choice([1, 2, 2, 3])
     budget = rng.randint(3, 8)
@@ -673,11 +878,11 @@ def gen_program(rng, klass=None):
             for _ in range(rng.randint(0, 2)):
                 r = rng.random()
                 if n and r < 0.5:
-                    scripts[i].append(["wait", rng.randrange(n)])
+                    scripts[i].append(_wait(rng, rng.randrange(n)))
                 elif r < 0.8:
                     scripts[i].append(["join"])
                 else:
-                    scripts[i].append(["join_t"])
+                    scripts[i].append(_timed_join(rng))
         if rng.random() < 0.7:
             for sc in scripts:
                 sc.append(["join"])
@@ -685,6 +890,7 @@ def gen_program(rng, klass=None):
     elif klass in ("L1", "L2"):
         gates = []
         running = False
+        others_join = False
         for k in range(budget):
             i = 0 if k == 0 else rng.randrange(nclients)
             sc = scripts[i]
@@ -702,18 +908,29 @@ def gen_program(rng, klass=None):
                     running = True
             elif i == 0 and klass == "L1" and not running and r < 0.3:
                 sc.append(["clear"])
-            elif r < 0.65:
+            elif r < 0.62:
                 if rng.random() < 0.25:
                     gates.append(new_gate())
                 sc.append(_enq(rng, gates))
+            elif r < 0.65:
+                sc.append(["enq_bad", rng.choice(["int", "str", "none", "obj"])])
             elif n and r < 0.8:
-                sc.append(["wait", rng.randrange(n)])
-            elif r < 0.9 or klass == "L1" and i != 0:
-                sc.append(["join_t"])
+                sc.append(_wait(rng, rng.randrange(n)))
+            elif r < 0.9:
+                sc.append(_timed_join(rng))
+            elif klass == "L1" and i != 0:
+                # the untimed join() on a client that is not the controlling thread: concurrent with stop()/start()
+                if rng.random() < 0.5:
+                    sc.append(["join"])
+                    others_join = True
+                else:
+                    sc.append(_timed_join(rng))
             elif (klass == "L2" and i != 0) or (i == 0 and running):
                 sc.append(["join"])
             else:
-                sc.append(["join_t"])
+                sc.append(_timed_join(rng))
+        if klass == "L1" and others_join and not running:
+            scripts[0].append(["start"])  # so that every untimed join() of the other clients returns
         if klass == "L2":
             if ["start"] not in scripts[0]:
                 joins = [k for k, o in enumerate(scripts[0]) if o[0] == "join"]
@@ -739,9 +956,11 @@ def gen_program(rng, klass=None):
                     gates.append(new_gate())
                 sc.append(_enq(rng, gates))
             elif n and r < 0.82:
-                sc.append(["wait", rng.randrange(n)])
+                sc.append(_wait(rng, rng.randrange(n)))
+            elif r < 0.87:
+                sc.append(["join"])
             else:
-                sc.append(["join_t"])
+                sc.append(_timed_join(rng))
     if opener:
         rng.shuffle(opener)
         scripts.append(opener)
@@ -768,7 +987,32 @@ def gen_gate_race(rng):
 
 
 def _plain(rng):
-    return ["enq", rng.choice(["ret", "ret", "raise"]), None]
+    return _with_variant(rng, ["enq", rng.choice(["ret", "ret", "raise"]), None])
+
+
+def gen_stop_enqueue(rng):
+    """
+    Class S: the controlling thread c0 starts the pool, enqueues, stops it and then goes on enqueuing WITHOUT restarting
+    (and polls: join(0), result(0), timed waits); one or two other clients enqueue at any moment — in particular inside
+    stop() — and wait with time-outs.  Nothing enqueued may begin once stop() has returned, no worker may be left.
+    """
+    mx, mn, qs = gen_config(rng)
+    c0 = [["start"]]
+    for _ in range(rng.randint(0, 2)):
+        c0.append(_plain(rng))
+    c0.append(["stop"])
+    for _ in range(rng.randint(1, 3)):
+        c0.append(_plain(rng))
+    n = len([o for o in c0 if o[0] == "enq"])
+    c0.append(rng.choice([_wait(rng, n - 1), _timed_join(rng), ["join_0", 0]]))
+    if rng.random() < 0.2:
+        c0.append(["stop"])  # redundant
+    scripts = [c0]
+    for _ in range(rng.choice([1, 1, 2])):
+        sc = [_plain(rng) for _ in range(rng.randint(1, 3))]
+        sc.append(rng.choice([_wait(rng, 0), _timed_join(rng)]))
+        scripts.append(sc)
+    return {"max": mx, "min": mn, "qsize": qs, "klass": "S", "clients": scripts, "drains": False}
 
 
 def gen_restart(rng, cfg=None):
@@ -841,6 +1085,37 @@ def restart_programs():
         else:
             P([["start"], G0, ["stop"], ["start"], R, X, ["join"]])
     return out
+
+
+def quiescent_programs():
+    """
+    Fixed programs whose interesting steps happen only at quiescence (every thread blocked, time-outs pending), plus the
+    untimed join() of a non-controlling client concurrent with stop(), a failing Thread.start(), and a worker that has to
+    survive a failing task without __name__; explored in every run over all choices at blocking points (and with one
+    pre-emption for the third).
+      Q1  an idle worker's queue.get time-out and its retirement decision: the second worker was started for a task that
+          the first one took; the client is parked in timed result() calls on a task blocked on a gate nobody opens.
+      Q2  thread.join(3) of stop() expiring while the joined worker runs a gate-blocked task (the opener is itself
+          parked in join(t) calls).
+      Q3  join() on a non-controlling client while the controlling thread stops and restarts the pool.
+      Q4  the first Thread.start() of start() fails (class F).
+      Q5  a raising functools.partial, then a bare callable returning 0 without arguments, one worker: the second must run.
+    """
+    R, X = ["enq", "ret", None], ["enq", "raise", None]
+    G0 = ["enq", "gwait", 0]
+    return [
+        {"max": 2, "min": 1, "qsize": 0, "klass": "L2", "drains": False,
+         "clients": [[["start"], R, R, G0, ["wait", 2], ["wait", 2], ["wait", 2]]]},
+        {"max": 1, "min": 1, "qsize": 0, "klass": "L1", "drains": False,
+         "clients": [[["start"], G0, ["wait", 0], ["stop"]], [["join_t"], ["join_t"], ["open", 0]]]},
+        {"max": 1, "min": 1, "qsize": 0, "klass": "L1", "drains": False,
+         "clients": [[["start"], R, ["stop"], ["start"]], [X, ["join"]]]},
+        {"max": 2, "min": 1, "qsize": 0, "klass": "F", "drains": False, "startfail": [0],
+         "clients": [[["start"], R, ["wait", 0], ["join_0", 0], ["stop"]]]},
+        {"max": 1, "min": 1, "qsize": 0, "klass": "L2", "drains": True,
+         "clients": [[["start"], ["enq", "raise", None, "partial/obj/std"], ["enq", "ret", None, "bare/zero/none"],
+                      ["wait", 0], ["wait", 1], ["enq_bad", "int"], ["join"]]]},
+    ]
 
 
 def window_programs():
@@ -1023,6 +1298,9 @@ def features(program):
     return ",".join(sorted(ops))
 
 
+SEARCH_SECONDS = 60.0
+
+
 class Checker(object):
     def __init__(self, ctx, pid):
         self.ctx = ctx
@@ -1037,9 +1315,17 @@ class Checker(object):
         self.lockstep_cap = 6000
         self.nrecorded = 0
         self.first_hit = None
+        # the search stage (tie already broken) is bounded in wall-clock time as well: a quick run stays a quick run, the
+        # long hunt belongs to `--tier thorough`
+        self.deadline = (time.time() + SEARCH_SECONDS) if ctx.searching else None
+
+    def out_of_time(self):
+        return self.deadline is not None and time.time() > self.deadline
 
     def enough(self):
         """A failing execution is in hand: go on for at most 150 more executions (other violation keys), stop at three keys."""
+        if self.out_of_time():
+            return True
         if not self.ctx.violations:
             return False
         if self.first_hit is None:
@@ -1056,6 +1342,7 @@ class Checker(object):
                   nontrivial_key=(program["klass"], program["max"], program["min"], program["qsize"], features(program),
                                   r.status, min(sw // 8, 6)),
                   kind="%s/%s/%s" % (program["klass"], chooser_name, r.status))
+        self.count_rare(program, r)
         for v in r.violations:
             if v["property"] != self.pid:
                 self.other_hits += 1
@@ -1079,6 +1366,31 @@ class Checker(object):
             self.lines.append(line)
             self.expected.append(projs)
             self.meta.append((program, r.schedule()))
+
+    RARE = ("queue.get:timeout", "queue.put:timeout", "thread.join:timeout", "cond.wait:timeout", "fut.wait:timeout",
+            "event.is_set:startfail")
+
+    def count_rare(self, program, r):
+        """How often each rare operation / situation occurred on the real code (printed into the evidence histogram)."""
+        h = self.ctx.hist
+        for st in r.s.trace:
+            tok = st.label + (":timeout" if st.timeout else "") + (":startfail" if st.fail else "")
+            if tok in self.RARE:
+                h["rare/" + tok] += 1
+        for c in r.calls:
+            if c.api in ("join_0", "wait_0"):
+                h["rare/call.%s" % c.api] += 1
+            if c.api == "join" and c.client != 0:
+                h["rare/join()-by-non-controller"] += 1
+                if c.overlap_stop:
+                    h["rare/join()-by-non-controller-overlapping-stop"] += 1
+        for t in r.tasks:
+            if t.shape != "obj":
+                h["rare/task-without-__name__:" + ("raises" if t.kind == "raise" else "returns")] += 1
+            if t.kind != "raise" and t.value is not None and not t.value and t.ended:
+                h["rare/falsy-result"] += 1
+        if program.get("timeout", 60) is None:
+            h["rare/pool-with-timeout-None"] += 1
 
     def lockstep(self):
         ctx = self.ctx
@@ -1117,7 +1429,7 @@ def check(ctx, pid, mix, quick_runs, thorough_runs, special=None):
     n_runs = ctx.budget(quick_runs, thorough_runs)
     if ctx.searching:
         # the tie is already known to be broken: look for a failing input only, with a bounded budget
-        n_runs = min(n_runs, 3000)
+        n_runs = min(n_runs, 1500)
         ck.lockstep_cap = 0
     directed(ck, ctx)
     for n in range(n_runs):
@@ -1138,7 +1450,7 @@ def check(ctx, pid, mix, quick_runs, thorough_runs, special=None):
         ck.record(program, r, name)
     if special is not None:
         special(ck)
-    if ctx.thorough and not ctx.violations:
+    if ctx.thorough and not ctx.violations and not ck.out_of_time():
         k = 0
         for program in small_programs():
             def on_run(r, program=program):
@@ -1147,7 +1459,7 @@ def check(ctx, pid, mix, quick_runs, thorough_runs, special=None):
                 ck.record(program, r, "dfs", lockstep=(k % 12 == 0))
                 return bool(ctx.violations)
             dfs(program, max_preempt=2, max_runs=60 if ctx.searching else 150, on_run=on_run)
-            if ctx.violations:
+            if ctx.violations or ck.out_of_time():
                 break
     ck.lockstep()
     ctx.extra["scheduler_steps"] = ctx.extra.get("scheduler_steps", 0) + ck.steps
@@ -1155,17 +1467,34 @@ def check(ctx, pid, mix, quick_runs, thorough_runs, special=None):
     ctx.extra["violation_keys"] = dict(ck.seen_keys)
     if ck.leaked:
         raise_infra("managed OS threads leaked: %d" % ck.leaked)
-    ctx.rule = ("random client programs (classes L1 single controlling thread with stop/restart, L2 started once with join(), "
-                "G gate-dependent tasks, R stop() during a gate-blocked task then restart and enqueue, W anything on any thread) "
-                "x pool sizes max 1..3, min 0..max, queue bound 0/1 x "
+    ctx.rule = ("random client programs (classes L1 single controlling thread with stop/restart and join() on the other clients, "
+                "L2 started once with join(), G gate-dependent tasks, R stop() during a gate-blocked task then restart and "
+                "enqueue, S stop then enqueue without restart, W anything on any thread, F some Thread.start() calls fail, "
+                "N pool built with timeout=None) x pool sizes max 1..3, min 0..max, queue bound 0/1 x tasks that are named "
+                "callables / bare callable instances / functools.partial objects returning truthy, falsy-but-not-None or None "
+                "objects or raising (empty args, falsy exception objects), with tuple / no / falsy arguments; join(1.0), "
+                "join(0), join(0.0), result(1.0), result(0), enqueue(non-callable) x "
                 "schedules (uniform, sticky, PCT depth 1-3, gate opener kept back for class R; in every run: DFS over the choices "
-                "at blocking points of 15 fixed class R programs and exhaustive single-pre-emption DFS of 2 tiny "
-                "enqueue-after-completion programs; thorough: bounded-preemption DFS over 60 small programs) on the REAL "
-                "ThreadPool under harness/sched.py; every execution is replayed step by step by the Lean model (lockstep "
-                "projections) and checked by the monitors; distinct_nontrivial = distinct (class, max, min, queue bound, set of "
-                "API operations, final status, context-switch bucket)")
+                "at blocking points of 5 fixed quiescence / failing-start / nameless-task programs and 15 fixed class R programs, "
+                "exhaustive single-pre-emption DFS of 2 tiny enqueue-after-completion programs; thorough: bounded-preemption DFS "
+                "over 60 small programs) on the REAL ThreadPool under harness/sched.py; every execution is replayed step by step "
+                "by the Lean model (lockstep projections) and checked by the monitors; distinct_nontrivial = distinct (class, max, "
+                "min, queue bound, set of API operations, final status, context-switch bucket); distribution keys `rare/...` count "
+                "how often each rare operation occurred on the real code")
     ctx.assumptions.append("harness/sched.py shims of threading.Event/RLock/Lock/Thread and queue.Queue (atomic FIFO with an "
-                           "unfinished count and all_tasks_done) stand for CPython's; time-outs expire only at quiescence")
+                           "unfinished count and all_tasks_done) stand for CPython's; positive time-outs expire only at "
+                           "quiescence, zero time-outs (join(0), result(0)) at once; Thread.start() fails only where the program says")
+    ctx.assumptions.append("pool `timeout` finite (constructor default 60; `ThreadPool(..., timeout=None)` is accepted unvalidated and "
+                           "lets stop()/enqueue block for ever in an untimed queue.put: hypothesis `cfg.timeoutNone = false` of "
+                           "C11_stop_no_stuck; class N programs are run for correspondence and safety only)")
+    ctx.assumptions.append("Thread.start() never raises, for the growth / floor / liveness theorems only (hypothesis "
+                           "`cfg.startMayFail = false` of C09_queued_has_server/_eventually_*, C10_no_starvation*/_min_floor/"
+                           "_progress_*); failing starts are modelled, run in lockstep (class F) and keep the counters exact "
+                           "(C10_counters_exact, C10_start_failure_rollback)")
+    ctx.assumptions.append("not modelled, not generated: tasks raising BaseException that is not Exception (SystemExit, "
+                           "KeyboardInterrupt: FutureResult.execute does not store it, the worker thread dies, the future is "
+                           "never done), tasks calling enqueue()/stop() on their own pool from a worker thread, execute() called "
+                           "twice on one future, objects whose __call__/__bool__/__repr__ themselves misbehave")
     return ck
 
 
@@ -1184,8 +1513,10 @@ def directed(ck, ctx):
         def on_run(r):
             nonlocal k
             k += 1
-            ck.record(program, r, "dfs%d" % max_preempt, lockstep=(k % every == 1))
-            return bool(ctx.violations)
+            ck.record(program, r, "dfs%d" % max_preempt, lockstep=(k % every == 1 or every == 1))
+            return bool(ctx.violations) or ck.out_of_time()
+        if ck.out_of_time():
+            return 0
         return dfs(program, max_preempt=max_preempt, max_runs=max_runs, on_run=on_run, lazy=lazy)
 
     def bud(q, t):
@@ -1194,6 +1525,10 @@ def directed(ck, ctx):
 
     nruns = 0
     deep = ctx.thorough  # thorough tier or search stage
+    for k, program in enumerate(quiescent_programs()):
+        if ctx.violations:
+            break
+        nruns += explore(program, 1 if k == 2 else 0, 60 if k == 2 else 40, lazy_roles(program), 2)
     for program in restart_programs():
         lz = lazy_roles(program)
         nruns += explore(program, 0, 40, lz, 4)
